@@ -34,6 +34,10 @@ func runC13(c *an.Ctx) {
 	c.As(map[string]string{"R15j": "R13j"}, func() { r15j(c) })
 	// round 8
 	fieldWriters(c, "R13k", "Task.localBindMap is assigned only where the task is made", "core/task", "Task", "localBindMap", map[string]bool{"(*core/task.Manager).newTaskForMesosOffer": true}, "the endpoints bound by a running task stay what they are for its whole life; a task reused by another environment whose bind map was cleared is configured without its inbound channels, and outbound channels that target it match nothing", 1)
+	// round 9
+	r13l(c)
+	r13m(c)
+	c.As(map[string]string{"R15m": "R13n"}, func() { r15m(c) })
 }
 
 func r13a(c *an.Ctx) {
@@ -384,6 +388,25 @@ func r13d(c *an.Ctx) {
 				}
 			}
 		}
+		if len(starts) == 0 {
+			// no flag and no lookup: a loop that returns on a match; "no entry matches" is then the exhaustion of the range
+			// over the bind map (the header's exit edge)
+			for _, b := range fn.Blocks {
+				ifi, isIf := b.Instrs[len(b.Instrs)-1].(*ssa.If)
+				if !isIf {
+					continue
+				}
+				ex, isEx := ifi.Cond.(*ssa.Extract)
+				if !isEx || ex.Index != 0 {
+					continue
+				}
+				if nx, isNx := ex.Tuple.(*ssa.Next); isNx {
+					if rg, isRg := nx.Iter.(*ssa.Range); isRg && strings.HasSuffix(rg.X.Type().String(), "channel.BindMap") {
+						starts = append(starts, startEdge{b, 1})
+					}
+				}
+			}
+		}
 		if len(starts) > 0 {
 			ok = true
 			for _, st := range starts {
@@ -441,6 +464,32 @@ func r13d(c *an.Ctx) {
 					}
 				}
 				if h, _ := an.EnclosingLoop(call.Block()); h != nil && fl.Reached[h] {
+					good = false
+				}
+				rets := fl.ReachedReturns()
+				if len(rets) == 0 {
+					good = false
+				}
+				for _, ret := range rets {
+					if len(ret.Results) == 0 || fl.Nilness(an.RetVal(ret, len(ret.Results)-1)) != 1 {
+						good = false
+					}
+				}
+				if good {
+					ok = true
+				}
+			}
+			if !ok {
+				// the error may leave an extracted helper untested and be tested by the caller one join later: decide by a flow
+				// started at the call with its error known non-nil
+				fl := an.FlowFromFacts(call.Block(), nil, ev)
+				good := true
+				for _, a := range avoid {
+					if a.Block() != call.Block() && fl.Reaches(a) {
+						good = false
+					}
+				}
+				if h, _ := an.EnclosingLoop(call.Block()); h != nil && h != call.Block() && fl.Reached[h] {
 					good = false
 				}
 				rets := fl.ReachedReturns()
